@@ -106,7 +106,28 @@ def semantic_case(idx, payload):
         return res
     c = rng.choice(classes)
     kind = rng.choice(["ctor-shaped-method", "ctor-shaped-method", "misspelled-ctor", "operator-shape", "unknown-dunder", "static-const",
-                       "typedef-unknown-template", "default-before-nondefault"])
+                       "typedef-unknown-template", "default-before-nondefault", "double-qualifier", "double-qualifier"])
+    if kind == "double-qualifier":
+        # `const Foo&& x`, `Foo** p`, `Foo*& p`, `std::vector<Foo>@@ f()`: a second pointer / reference marker behind a type — no
+        # rule of the dialect has a place for it
+        lx = gen.lexemes(m)
+        spots = [k for k, t in enumerate(lx) if t[1] in ("&", "*", "@")]
+        if not spots:
+            return res
+        k = rng.choice(spots)
+        lx = lx[:k + 1] + [("sym", rng.choice(["&", "*", "@"]))] + lx[k + 1:]
+        text = gen.layout(rng, lx, rng.choice(['space', 'lines', 'min']))
+        res.update(kind=kind, text=text)
+        import props.c01 as c01
+        tree, err = impl_parse(text)
+        model = c01.model_parse_dump(text)
+        res["impl_accepts"], res["model_accepts"] = tree is not None, not model.startswith("ERR")
+        if tree is not None:
+            res["bad"] = dict(kind="spec", what="input accepted although a type carries two pointer / reference markers: the extra token is silently dropped",
+                              input=text, corruption=kind)
+        elif not model.startswith("ERR"):
+            res["bad"] = dict(kind="model", what="model accepts a doubled pointer / reference marker", input=text)
+        return res
     if kind == "default-before-nondefault":
         # `f(double force = 7041, int times)`: a default value in front of a parameter without one — out of dialect for the MATLAB
         # generator (its overload expansion asserts trailing defaults): it must refuse, or else the value must be used
